@@ -12,6 +12,12 @@ ENGINES = [
      'kind_free_text': 'preemption-bounded controlled scheduler over compiler-inserted load/store hooks with conflict (race) monitor'},
 ]
 TEXT = {
+    'C19': {
+        'level': 'Explicit-state breadth-first search on the real BigInt: for BigInt<uint8,16> over EVERY reachable internal state (words+index) to the fixed point with the complete alphabet (all 256 operands of = += -= *= /= |= &=, all shifts, wide set/add/sub/or/and, copy, move; 65536 states, ~170 M transitions); for <uint8,24|32>, <uint16,64>, <uint32,128>, <uint64,128|256|2048> to depth 4-5 over boundary operands and shifts with canonical-state dedup; after every transition the value, remainder, bit scans, all comparison operators, zero predicates and narrowing conversions are compared with a schoolbook reference. DoubleSize<uint8> divide/multiply exhaustively (8.4 M), 16/32/64-bit helpers on boundary lattices and on every divisor in [2^63, 2^63+4096) and the top 4096.',
+        'design_ref': 'DESIGN.md §5 C19',
+        'note': 'Transitions whose exact result does not fit the width are skipped (property scope). Intra-object overruns are visible via UBSan bounds in the asan variant; words above Index() are part of the state key but not of the value.',
+        'technique': 'explicit-state BFS over operation histories on the implementation (fixed point for the 8-bit instantiation), reference-model comparison after every transition',
+    },
     'C11': {
         'level': 'Exhaustive over finite lattices, bit-equality oracle: all 2^32 floats (thorough; quick: the 2^24 with zero low byte), all doubles with zero low word (2^32 thorough / 2^26 quick), 64 mantissa patterns x all 2047 exponents x sign, +-2 ulp around every power of two and ten, subnormal 2^k+-1, +-0, max: formatted with 17 (9) significant digits by the real formatter and parsed back by the real parser.',
         'design_ref': 'DESIGN.md §5 C11',
